@@ -1,5 +1,5 @@
 // Package rewrite generates the instrumented copy of /repo/trzsz and the -overlay file
-// (rules R1–R10 of /verif/DESIGN.md §2.1).
+// (rules R1–R14 of /verif/DESIGN.md §2.1).
 package rewrite
 
 import (
@@ -540,7 +540,35 @@ func (r *rewriter) file(f *ast.File) {
 				_, labelled := c.Parent().(*ast.LabeledStmt)
 				c.Replace(r.rewriteRange(n, labelled))
 			}
+		case *ast.SelectorExpr:
+			// R14a: the product's one io.Pipe (input pump -> stop/continue menu) becomes a scheduler-aware pipe
+			if x, ok := n.X.(*ast.Ident); ok {
+				if pn, ok := r.info.Uses[x].(*types.PkgName); ok && pn.Imported().Path() == "io" {
+					switch n.Sel.Name {
+					case "Pipe":
+						c.Replace(vs("IOPipe"))
+						r.used = true
+						r.stats["iopipe"]++
+					case "PipeWriter", "PipeReader":
+						c.Replace(vs(n.Sel.Name))
+						r.used = true
+						r.stats["iopipe-type"]++
+					}
+				}
+			}
 		case *ast.CallExpr:
+			// R14b: promptui.Select.Run() is replaced by a model that reads the same stdin and draws on the same stdout
+			if sel, ok := n.Fun.(*ast.SelectorExpr); ok && sel.Sel.Name == "Run" && len(n.Args) == 0 {
+				if t := r.info.TypeOf(sel.X); t != nil && strings.HasSuffix(t.String(), "promptui.Select") {
+					c.Replace(call(vs("PromptRun"),
+						&ast.SelectorExpr{X: sel.X, Sel: id("Stdin")},
+						&ast.SelectorExpr{X: sel.X, Sel: id("Stdout")},
+						&ast.SelectorExpr{X: sel.X, Sel: id("Items")}))
+					r.used = true
+					r.stats["prompt"]++
+					return true
+				}
+			}
 			if r.isBuiltin(n.Fun, "close") {
 				r.used = true
 				r.stats["close"]++
@@ -674,6 +702,9 @@ func Generate(repo, verif, out string) (string, map[string]int, error) {
 	}
 	if total["flagfn"] != 1 {
 		errs = append(errs, "isWindowsEnvironment() not found in the expected one-statement form (rule R12)")
+	}
+	if total["iopipe"] != 1 || total["prompt"] != 1 {
+		errs = append(errs, fmt.Sprintf("expected exactly one io.Pipe() and one promptui.Select.Run() in the package (rule R14), found %d / %d", total["iopipe"], total["prompt"]))
 	}
 	if len(errs) > 0 {
 		return "", nil, fmt.Errorf("constructs the instrumentation cannot express:\n%s", strings.Join(errs, "\n"))
